@@ -4,6 +4,7 @@
 mod common;
 mod strings;
 mod suite_cmp;
+mod suite_axes;
 mod suite_entity;
 mod suite_forest;
 mod suite_rt;
@@ -35,6 +36,7 @@ fn main() {
         "rt" => suite_rt::run(seed, count, tier, &mut sink),
         "exec-forest" => suite_forest::exec_stdin(&mut sink),
         "idmap" => suite_idmap::run(seed, count, tier, &mut sink),
+        "axes" => suite_axes::run(seed, count, tier, &mut sink),
         _ => {
             eprintln!("unknown suite {}", suite);
             std::process::exit(2);
